@@ -860,7 +860,19 @@ def primitiveEquals(a, b):
     return a == b
 
 
+def parseJson(s):
+    """only used on texts produced by json.dumps (well-formed by construction)"""
+    import json as _json
+    if not isinstance(s, str):
+        raise RefError("parseJson expects a string")
+    try:
+        return _json.loads(s, parse_int=float)
+    except ValueError:
+        raise Abstain("reader-specific rejection")
+
+
 REF = {
+    "parseJson": parseJson,
     "sort": sort, "uniq": uniq, "set": set_, "setMember": setMember, "setUnion": setUnion, "setInter": setInter,
     "setDiff": setDiff, "member": member, "contains": contains, "find": find, "count": count, "remove": remove,
     "removeAt": removeAt, "flattenArrays": flattenArrays, "flattenDeepArray": flattenDeepArray, "foldl": foldl,
